@@ -146,7 +146,7 @@ def _family():
     pk = int(np.argmax(np.abs(sp).max(axis=1)))
     fam.append(("model-spike", sp[pk].astype(np.float64)))
     fam.append(("model-spike-inverted", -sp[pk].astype(np.float64)))
-    for n in (64, 128, 256):
+    for n in (62, 63, 64, 65, 82, 101, 102, 128, 256):
         t = np.arange(n)
         for f in (0.01, 0.02, 0.05, 0.08, 0.1):
             env = np.exp(-0.5 * ((t - n / 2) / (n / 12.0)) ** 2)
@@ -181,7 +181,7 @@ def delay_check(case):
 
 
 def stack_cases(tier, seed):
-    return [(nsp, kind) for nsp in (3, 5, 9) for kind in (0, 1)]
+    return [(nsp, kind) for nsp in (3, 5, 9) for kind in (0, 1, 2, 3)]
 
 
 def stack_check(case):
@@ -189,6 +189,10 @@ def stack_check(case):
     sp = generate_waveform()              # (40 traces, 121 samples)
     if kind == 1:
         sp = -sp[:12]
+    elif kind == 2:
+        sp = sp[10:30, 9:111]            # 102 samples (4k + 2)
+    elif kind == 3:
+        sp = sp[:, 20:102]               # 82 samples
     sp = sp / np.abs(sp).max()
     shifts = np.linspace(-0.8, 0.8, nsp)
     cluster = np.stack([fourier.fshift(sp, float(s), axis=-1) for s in shifts])      # (N, trace, time)
@@ -204,6 +208,35 @@ def stack_check(case):
     if spread_after > 0.25 * spread_before:
         v.append(("shift_waveform:align", "waveforms are not re-aligned: spread on the peak trace %.3g -> %.3g" % (spread_before, spread_after)))
     return Res(v, o=case, tr=nsp)
+
+
+# ------------------------------------------------------------------ call histories: the shift must not depend on earlier calls
+def history_cases(tier, seed):
+    N = 300 if tier == "quick" else 1100
+    return [(a, min(a + 25, N + 1)) for a in range(2, N + 1, 25)]
+
+
+def history_check(case):
+    a, b = case
+    seen = {}
+    ntr = 0
+    for n in range(a, b):
+        for seq in ((n, n + 1, n), (n + 1, n, n + 1), (n, 2 * n, n), (n, n - 1) if n > 2 else (n,)):
+            for m in seq:
+                eye = np.eye(m)
+                for s in (1, 7 % m, -2):
+                    out = fourier.fshift(eye, s, axis=1)
+                    ntr += 1
+                    err = _maxerr(out, np.roll(eye, s, axis=1))
+                    if err > 1e-10:
+                        seen.setdefault("history-dependence", "after the call sequence of lengths %r, fshift(eye(%d), %d) differs from the roll by %.3g" % (seq, m, s, err))
+                nr = min(3, m)
+                sv = (0.5, -1.25, 2.0)[:nr]
+                out = fourier.fshift(eye[:nr], np.array(sv), axis=1)
+                ref = np.stack([fourier.fshift(eye[i], v) for i, v in enumerate(sv)])
+                if _maxerr(out, ref) > 1e-10:
+                    seen.setdefault("history-dependence:per-trace", "lengths %r: per-trace shifts differ from single-trace calls at n=%d" % (seq, m))
+    return Res(list(seen.items()), o="h", tr=ntr)
 
 
 # ------------------------------------------------------------------ parabolic maximum
@@ -262,6 +295,7 @@ CHECK = {
     ],
     "clauses": [
         Clause("basis", "impulse / sinusoid basis laws for every length and dtype", cases=basis_cases, check=basis_check),
+        Clause("history", "call sequences over neighbouring lengths in one process (no hidden state)", cases=history_cases, check=history_check),
         Clause("delay", "wave_shift_corrmax recovers the applied shift and re-aligns", cases=delay_cases, check=delay_check),
         Clause("stack", "shift_waveform re-aligns a cluster of shifted copies", cases=stack_cases, check=stack_check),
         Clause("parabolic", "parabolic_max on every 3-point pattern position incl. edges, 1-D and 2-D", cases=para_cases, check=para_check),
